@@ -1,9 +1,14 @@
 #!/bin/bash
 # Every seeded change against the quick check of the property it was written for (scratch worktree RCE_REPO).
+# SHARD=i/n evaluates every n-th seed only and writes seeded/MATRIX.<i>.txt (merge: cat seeded/MATRIX.?.txt | sort -V).
 V="$(cd "$(dirname "$0")/.." && pwd)"
-out="$V/seeded/MATRIX.txt"; : > "$out"
+sh="${SHARD:-0/1}"; i=${sh%%/*}; n=${sh##*/}
+out="$V/seeded/MATRIX.txt"; [ "$n" != 1 ] && out="$V/seeded/MATRIX.$i.txt"
+: > "$out"
+k=0
 for d in "$V"/seeded/*/; do
   [ -f "$d/patch.diff" ] || continue
-  n=$(basename "$d"); id=${n%%-*}
+  k=$((k+1)); [ $((k % n)) -eq "$i" ] || continue
+  nm=$(basename "$d"); id=${nm%%-*}
   timeout 3000 "$V/tools/eval_seed.sh" "$d" "$id" 2>&1 | grep "^DETECT" | tee -a "$out"
 done
